@@ -359,7 +359,11 @@ static vector<string> draw_pool(sim_rng &r, const string &prop, int n) {
         }
         if (sim_below(&r, 40) == 0) { static const char *deg[] = { "", "@", "a@", "@b.com", "noat", "@@", "a@b" }; p.back() = deg[sim_below(&r, 7)]; }
         // the neighbourhood of the hand-made shapes: seeded structural mutation of one address in five
-        if (sim_below(&r, 5) == 0) p.back() = mut::mutate(&r, p.back());
+        if (sim_below(&r, 5) == 0) {
+            // (half the time next to its original: whatever remembers the previous address meets its near-twin)
+            string m = mut::mutate(&r, p.back());
+            if (sim_below(&r, 2)) p.push_back(m); else p.back() = m;
+        }
     }
     return p;
 }
